@@ -39,6 +39,7 @@ package swu
 //@   assert qrspec@y if sel == 0: iff(isGx1Square == 1, issq(swu_g(swu_x1(val(u)))))
 //@   apply eul@y: euler_sqrt_P(swu_g(swu_B() * inv(fp(swu_Z() * swu_A()))))
 //@   apply np@e1: neg_parity_P(val(y))
+//@   fork sg@e1: e1 == 1
 //@   proves val(result1)*val(result1) == swu_g(val(result0))
 //@   proves val(result0) == ite(issq(swu_g(swu_x1(val(u)))), swu_x1(val(u)), swu_Z()*val(u)*val(u)*swu_x1(val(u)))
 //@   proves lift(val(result1)) % 2 == lift(val(u)) % 2 || val(result1) == 0
@@ -47,8 +48,6 @@ package swu
 //@   ensures val(result1) == swu_y(val(u))
 //@   using swu_y_def(val(u))
 //@   using swu_g_nonzero(val(result0))
-//@   using sqrt_unique_P(swu_g(swu_x(val(u))), swu_y(val(u)), val(result1))
 //@   using swu_g_nonzero(swu_x(val(u)))
-//@   using neg_parity_P(swu_y(val(u)))
-//@   using mul_zero_P(swu_y(val(u)), swu_y(val(u)))
+//@   using sqrt_sign_unique(swu_g(swu_x(val(u))), swu_y(val(u)), val(result1), lift(val(u)) % 2)
 //@   fresh result0, result1
